@@ -75,6 +75,12 @@ func newDisjunctionSearcher(ctx context.Context, indexReader index.IndexReader,
 				for _, s := range qsearchers {
 					_ = s.Close()
 				}
+				// the replacement has to report the min of the disjunction
+				// it stands for, a boolean searcher decides from Min()
+				// whether its should clause is optional
+				if ts, ok := rv.(*TermSearcher); ok {
+					ts.min = int(min)
+				}
 				return rv, nil
 			}
 		}
